@@ -85,7 +85,7 @@ func checkC16(c c16Case) (Outcome, error) {
 	return out, nil
 }
 
-var extremeFamilies = []string{"constant", "constant", "alternating", "transition", "transition", "biased", "balanced", "sparse", "sparse", "longrun", "periodic", "markov", "uniform", "walk", "runs", "tone", "explicit"}
+var extremeFamilies = []string{"constant", "constant", "alternating", "transition", "transition", "biased", "balanced", "sparse", "sparse", "longrun", "periodic", "markov", "uniform", "walk", "runs", "tone", "explicit", "debruijn", "debruijn"}
 
 func genC16(t *rapid.T) c16Case {
 	c := c16Case{Test: rapid.IntRange(0, 14).Draw(t, "test"), Runner: rapid.Bool().Draw(t, "runner")}
@@ -98,6 +98,9 @@ func genC16(t *rapid.T) c16Case {
 	n := drawLen(t, minN, []int{1000, 6272, 10000, 8967 + 7})
 	if c.Runner {
 		n = (n + 7) / 8 * 8
+	}
+	if rapid.IntRange(0, 3).Draw(t, "pow2len") == 0 { // lengths that are multiples of 256: whole periods of every de Bruijn cycle up to order 8
+		n = (n + 255) / 256 * 256
 	}
 	c.Seq = gen.DrawSeq(t, n, extremeFamilies)
 	if c.Seq.Family == "biased" {
@@ -130,7 +133,8 @@ func TestC16Sweep(t *testing.T) {
 				n = (n + 7) / 8 * 8
 				for _, q := range []gen.Seq{{Family: "constant", N: n, A: 0}, {Family: "constant", N: n, A: 1}, {Family: "alternating", N: n},
 					{Family: "transition", N: n, A: 1, Pos: []int{n / 3}}, {Family: "biased", N: n, Seed: 5, F: 0.999}, {Family: "balanced", N: n, Seed: 6},
-					{Family: "sparse", N: n, A: 0, Pos: []int{n - 1}}, {Family: "uniform", N: n, Seed: 7}} {
+					{Family: "sparse", N: n, A: 0, Pos: []int{n - 1}}, {Family: "uniform", N: n, Seed: 7},
+					{Family: "debruijn", N: (n + 255) / 256 * 256, A: 2}, {Family: "debruijn", N: (n + 255) / 256 * 256, A: 5, B: 3}, {Family: "debruijn", N: (n + 255) / 256 * 256, A: 8, Pos: []int{1}}} {
 					if n >= 10000000 && (q.Family == "balanced" || q.Family == "biased" || q.Family == "sparse") {
 						continue
 					}
